@@ -1,6 +1,7 @@
 import Lean.Data.Json
 import SpoxModel.Model.MLInfer
 import SpoxModel.Model.RtShape
+import SpoxModel.Model.ScanRun
 /-! Line-protocol handler for property C06 (model side of the correspondence).
 
   {"k":"infer","op":O,"a":_,"b":_,"c":_,"in":[type…]}            → {"ok":[type|null…]} | {"err":E}
@@ -146,6 +147,35 @@ def looprun (req : Json) : Except String Json := do
     pure (Json.mkObj [("run", Json.mkObj [("final", Json.arr (fin.map valToJson).toArray),
       ("iterations", toJson scs.length), ("scans", Json.arr scans.toArray)])])
 
+/-- {"k":"scanrun","inAxes":[…],"outAxes":[…],"states":[value…],"xs":[value…]} — the body returns its
+    states unchanged and, as scan rows, every slice followed by one constant `f32[2,7]`. -/
+def scanrun (req : Json) : Except String Json := do
+  let inAxes ← req.getObjValAs? (List Int) "inAxes"
+  let outAxes ← req.getObjValAs? (List Int) "outAxes"
+  let sts ← (← req.getObjValAs? (Array Json) "states").toList.mapM valOfJson
+  let xs ← (← req.getObjValAs? (Array Json) "xs").toList.mapM valOfJson
+  let body : ScanBody := fun _ st sl => some (st, sl ++ [⟨.f32, [2, 7]⟩])
+  match scanRun { inAxes := inAxes, outAxes := outAxes } body (xs.length + 1) sts xs with
+  | none => pure (Json.mkObj [("run", .null)])
+  | some (fin, outs) => pure (Json.mkObj [("run", Json.mkObj [("final", Json.arr (fin.map valToJson).toArray),
+      ("outs", Json.arr (outs.map valToJson).toArray)])])
+
+/-- {"k":"scanty","inAxis":a,"outAxis":b,"X":type,"t":type} → the reported scan-output type (`scanOutTy` with
+    the length dim of `X` at its scan axis), and spox's prescription for the body's slice argument. -/
+def scanty (req : Json) : Except String Json := do
+  let ia ← req.getObjValAs? Int "inAxis"
+  let oa ← req.getObjValAs? Int "outAxis"
+  let X ← tyOfJson (← req.getObjVal? "X")
+  let t ← tyOfJson (← req.getObjVal? "t")
+  match X, t with
+  | some X, some t =>
+    let out := match scanSliceTy ia X with
+      | some (len, _) => (scanOutTy oa len t).map some
+      | none => none
+    pure (Json.mkObj [("out", match out with | some ty => tyToJson ty | none => "invalid"),
+      ("arg", tyToJson (some (scanSliceTySpox X)))])
+  | _, _ => throw "untyped"
+
 def handle (req : Json) : Json :=
   match (do
     let k ← req.getObjValAs? String "k"
@@ -153,6 +183,8 @@ def handle (req : Json) : Json :=
     | "infer" => infer req
     | "rt" => rt req
     | "looprun" => looprun req
+    | "scanrun" => scanrun req
+    | "scanty" => scanty req
     | "emptyscan" => do
       let v ← valOfJson (← req.getObjVal? "val")
       let t ← tyOfJson (← req.getObjVal? "ty")
